@@ -1,6 +1,25 @@
 (* C12 correspondence cases: what the implementation answered, to be compared with the model *)
 From FB Require Export C12.Model.
 
+(* code points below 128 as constants: the harness prints `c67` instead of `67` (a numeral costs a
+   number-notation interpretation each, which dominated the time to load a shard) *)
+Definition c0 : N := 0. Definition c1 : N := 1. Definition c2 : N := 2. Definition c3 : N := 3. Definition c4 : N := 4. Definition c5 : N := 5. Definition c6 : N := 6. Definition c7 : N := 7.
+Definition c8 : N := 8. Definition c9 : N := 9. Definition c10 : N := 10. Definition c11 : N := 11. Definition c12 : N := 12. Definition c13 : N := 13. Definition c14 : N := 14. Definition c15 : N := 15.
+Definition c16 : N := 16. Definition c17 : N := 17. Definition c18 : N := 18. Definition c19 : N := 19. Definition c20 : N := 20. Definition c21 : N := 21. Definition c22 : N := 22. Definition c23 : N := 23.
+Definition c24 : N := 24. Definition c25 : N := 25. Definition c26 : N := 26. Definition c27 : N := 27. Definition c28 : N := 28. Definition c29 : N := 29. Definition c30 : N := 30. Definition c31 : N := 31.
+Definition c32 : N := 32. Definition c33 : N := 33. Definition c34 : N := 34. Definition c35 : N := 35. Definition c36 : N := 36. Definition c37 : N := 37. Definition c38 : N := 38. Definition c39 : N := 39.
+Definition c40 : N := 40. Definition c41 : N := 41. Definition c42 : N := 42. Definition c43 : N := 43. Definition c44 : N := 44. Definition c45 : N := 45. Definition c46 : N := 46. Definition c47 : N := 47.
+Definition c48 : N := 48. Definition c49 : N := 49. Definition c50 : N := 50. Definition c51 : N := 51. Definition c52 : N := 52. Definition c53 : N := 53. Definition c54 : N := 54. Definition c55 : N := 55.
+Definition c56 : N := 56. Definition c57 : N := 57. Definition c58 : N := 58. Definition c59 : N := 59. Definition c60 : N := 60. Definition c61 : N := 61. Definition c62 : N := 62. Definition c63 : N := 63.
+Definition c64 : N := 64. Definition c65 : N := 65. Definition c66 : N := 66. Definition c67 : N := 67. Definition c68 : N := 68. Definition c69 : N := 69. Definition c70 : N := 70. Definition c71 : N := 71.
+Definition c72 : N := 72. Definition c73 : N := 73. Definition c74 : N := 74. Definition c75 : N := 75. Definition c76 : N := 76. Definition c77 : N := 77. Definition c78 : N := 78. Definition c79 : N := 79.
+Definition c80 : N := 80. Definition c81 : N := 81. Definition c82 : N := 82. Definition c83 : N := 83. Definition c84 : N := 84. Definition c85 : N := 85. Definition c86 : N := 86. Definition c87 : N := 87.
+Definition c88 : N := 88. Definition c89 : N := 89. Definition c90 : N := 90. Definition c91 : N := 91. Definition c92 : N := 92. Definition c93 : N := 93. Definition c94 : N := 94. Definition c95 : N := 95.
+Definition c96 : N := 96. Definition c97 : N := 97. Definition c98 : N := 98. Definition c99 : N := 99. Definition c100 : N := 100. Definition c101 : N := 101. Definition c102 : N := 102. Definition c103 : N := 103.
+Definition c104 : N := 104. Definition c105 : N := 105. Definition c106 : N := 106. Definition c107 : N := 107. Definition c108 : N := 108. Definition c109 : N := 109. Definition c110 : N := 110. Definition c111 : N := 111.
+Definition c112 : N := 112. Definition c113 : N := 113. Definition c114 : N := 114. Definition c115 : N := 115. Definition c116 : N := 116. Definition c117 : N := 117. Definition c118 : N := 118. Definition c119 : N := 119.
+Definition c120 : N := 120. Definition c121 : N := 121. Definition c122 : N := 122. Definition c123 : N := 123. Definition c124 : N := 124. Definition c125 : N := 125. Definition c126 : N := 126. Definition c127 : N := 127.
+
 Definition classes_eqb : list class -> list class -> bool := list_eqb class_eqb.
 Definition file_eqb (a b : str * str) : bool := str_eqb (fst a) (fst b) && str_eqb (snd a) (snd b).
 Definition plain_leb (a b : str * str) : bool := is_le (str_cmp (fst a) (fst b)).
